@@ -134,7 +134,8 @@ FlagCtx(ws) == IF "msgone" \in ws.flags THEN ":error_pending_after_move_then_del
                ELSE IF ws.ovf THEN ":overflow_pending" ELSE ""
 \* a control call that does not come back: Close in particular also fails to close the channels (C06) and to
 \* release the resources (C13); Add/Remove stuck behind a pending overflow report also break C10's "keeps accepting"
-BlockedProps(ws, op) == {"C05"} \cup (IF op = "close" THEN {"C06", "C13"} ELSE {})
+\* (a call that waits for the consumer is a deadlock between the caller and the reader goroutine: C07 too)
+BlockedProps(ws, op) == {"C05", "C07"} \cup (IF op = "close" THEN {"C06", "C13"} ELSE {})
                                \cup (IF ws.ovf /\ op \in {"add", "remove"} THEN {"C10"} ELSE {})
 
 CallResult(ws, c) ==
@@ -143,7 +144,8 @@ CallResult(ws, c) ==
   ELSE IF c.ret = "pending" THEN LET b == Fog(Note(ws, "async")) IN
                             IF c.op = "close" THEN [RelaxAll(b) EXCEPT !.phase = "closing"] ELSE b
   ELSE CASE c.op = "add" ->
-              IF c.recurse THEN IdealAddRec(ws, Clean(c.abs, c.arg), c.reserr, c.tree,
+              IF c.recurse THEN IdealAddRec(ws, Clean(c.abs, c.arg), IF c.reserr = "" /\ c.reskind # "dir" THEN "ENOTDIR" ELSE c.reserr,
+                                            IF "tree" \in DOMAIN c THEN c.tree ELSE <<>>,
                                             InotifyRequest(IF c.ops = -1 THEN DefaultOps ELSE c.ops), c.ret)
               ELSE IdealAdd(ws, Clean(c.abs, c.arg), c.resino, c.reserr,
                             InotifyRequest(IF c.ops = -1 THEN DefaultOps ELSE c.ops), c.ret)
@@ -189,8 +191,10 @@ DrainEnd(w1, d) ==
                            ELSE IF w1.postClose > (IF w1.cap < 0 THEN 0 ELSE w1.cap) THEN Bad(w1, {"C06"}, "events_after_close") ELSE w1
     [] OTHER -> w1      \* "partial": only one channel was received from; nothing is settled
 
-DrainW(ws, d) ==
-  LET S == IF d.vals = <<>> THEN {ws}
+DrainW(ws0, d) ==
+  LET \* hundreds of errors in a row with no fault injected: the reader is stuck reporting the same failure, nothing else is delivered
+      ws == IF d.end = "flood" THEN Bad(ws0, {"C10", "C01"}, "error_flood") ELSE ws0
+      S == IF d.vals = <<>> THEN {ws}
            ELSE FoldLeft(LAMBDA acc, v : UNION {RecvVal(x, v.ch, v) : x \in acc}, {ws}, d.vals)
   IN {DrainEnd(x, d) : x \in S}
 
@@ -274,7 +278,7 @@ Fault == /\ IsKind("fault")
          /\ W' = IF Line.w \in DOMAIN W /\ Line.on THEN [W EXCEPT ![Line.w] = [@ EXCEPT !.flags = @ \cup {"readfault"}]] ELSE W
          /\ UNCHANGED <<seq, g>> /\ Next1
 
-Other == /\ l <= Len(Trace) /\ Line.k \in {"recurse", "bad", "chdir", "spawn"}
+Other == /\ l <= Len(Trace) /\ Line.k \in {"recurse", "bad", "chdir", "spawn", "sleep"}
          /\ g' = IF Line.k = "bad" THEN Infra("bad step") ELSE g
          /\ UNCHANGED <<W, seq>> /\ Next1
 
